@@ -1,7 +1,65 @@
 (* C15 — Simulation time reads are never torn and never go backwards.
-   Proved under sequentially consistent interleaving at atomic-operation
-   granularity; the weak-memory (C11) part is NOT proved: see MANIFEST. *)
+   Part 1: under the release/acquire + relaxed + fences memory model of Model/WMem.v, for the two
+   programs GENERATED from util/sync_cell.rs and time/monotonic_time.rs (gen/SyncCellProg.v).
+   Part 2: under sequentially consistent interleaving (Model/SeqLock.v), the model that is run
+   against the real code schedule by schedule. *)
 Require Import NX.Base.Prelude NX.Base.ListX NX.Model.SeqLock NX.Proofs.SeqLockProofs.
+Require Import NX.Model.WMem NX.gen.SyncCellProg NX.Proofs.WMemProofs NX.Proofs.WMemGen.
+
+(* the generated programs are the ones the proofs are about *)
+Theorem c15_wm_source_is_proved_program : wprog_gen = wprog_proved /\ rprog_gen = rprog_proved.
+Proof. exact gen_is_proved. Qed.
+Print Assumptions c15_wm_source_is_proved_program.
+
+(* For any initial value, any sequence of written values, any number of readers, any schedule
+   and any choice of the messages the loads read (every stale read the memory model allows):
+   every result (t, v) a reader obtains was validated against the sequence number with
+   timestamp t = 2j, and v is exactly the j-th value the cell has held (the initial value or a
+   completed write) - never the seconds of one time and the nanoseconds of another. *)
+Theorem c15_wm_not_torn :
+  forall v0 vals n sched r t v,
+    let s := wm_run (wm_init wprog_gen rprog_gen v0 vals n) sched in
+    In r (tl (threads s)) -> In (t, v) (outs r) ->
+    exists j, t = 2 * j /\ nth_error (whist s) j = Some v.
+Proof. exact wm_gen_not_torn. Qed.
+Print Assumptions c15_wm_not_torn.
+
+(* The results of one reader follow the write order (outs lists the newest first), and none is
+   older than what the reader's view of the sequence number already contained: a view only
+   grows, by the reader's own loads and by synchronisation, so a value that was observed, or
+   published to the reader, is never followed by an older one. *)
+Theorem c15_wm_monotone :
+  forall v0 vals n sched r,
+    let s := wm_run (wm_init wprog_gen rprog_gen v0 vals n) sched in
+    In r (tl (threads s)) ->
+    desc (map fst (outs r)) /\ forall t v, In (t, v) (outs r) -> t <= vq (cur r).
+Proof. exact wm_gen_monotone. Qed.
+Print Assumptions c15_wm_monotone.
+
+Theorem c15_wm_history :
+  forall sched s, exists d, whist (wm_run s sched) = whist s ++ d.
+Proof. exact wm_hist_prefix. Qed.
+Print Assumptions c15_wm_history.
+
+(* the invariant behind them holds in every reachable state of the weak-memory machine *)
+Theorem c15_wm_invariant : forall sched s, WInv s -> WInv (wm_run s sched).
+Proof. exact wm_run_inv. Qed.
+Print Assumptions c15_wm_invariant.
+
+(* non-vacuity, and sensitivity of the model to the orderings: the generated programs do return
+   values under a racy schedule; with the Release fence after the value stores, or with a
+   Relaxed first load, the same machine returns a torn time *)
+Example c15_wm_nonvacuous :
+  wm_outputs (wm_run (wm_init wprog_gen rprog_gen (1, 10)%Z [(2, 20); (3, 30)]%Z 1) sched_ok) = [[(1, 10); (2, 20)]%Z].
+Proof. exact gen_run_example. Qed.
+Example c15_wm_fence_late_refuted :
+  wm_outputs (wm_run (wm_init wprog_fence_late rprog_proved (1, 10)%Z [(2, 20)%Z] 1) sched_torn) = [[(2, 10)%Z]].
+Proof. exact fence_late_torn. Qed.
+Example c15_wm_first_load_relaxed_refuted :
+  wm_outputs (wm_run (wm_init wprog_proved rprog_first_load_relaxed (1, 10)%Z [(2, 20)%Z] 1) sched_stale) = [[(1, 20)%Z]].
+Proof. exact first_load_relaxed_torn. Qed.
+
+(* ---------------- Part 2: sequentially consistent interleavings ---------------- *)
 
 (* For any initial value, any sequence of written values, any number of
    readers and any schedule: every value a reader returns is exactly one of
